@@ -371,7 +371,14 @@ pub fn run_case(c: &Case) -> Result<(), Fail> {
                 Some(p) => {
                     let well_typed = p.as_object().map(|o| o.get("interface").map(|i| i.is_string()).unwrap_or(false)).unwrap_or(false);
                     if !well_typed {
-                        // ill-typed: only "no success reply"
+                        // ill-typed: no success reply - and the request is not passed over in silence: an
+                        // error reply, or the service ends the connection
+                        if replies.is_empty() && !closed {
+                            return Err(Fail::new(
+                                "route/desc-illtyped-unanswered",
+                                format!("GetInterfaceDescription with parameters {} got no reply and the connection stayed open", p),
+                            ));
+                        }
                         for r in &replies {
                             if r.get("error").map(|e| e.is_null()).unwrap_or(true) {
                                 return Err(Fail::new("route/desc-illtyped-success", format!("ill-typed GetInterfaceDescription {} got a success reply", p)));
